@@ -45,14 +45,14 @@ Section Value.
   Definition v3_dist2 (x1 x2 : vec3) : T := v3norm2 (v3sub x1 x2).
   Definition v3_grad (x1 x2 : vec3) : vec3 := v3scale two (v3sub x1 x2).
 
-  (* ---- unit vector (the cosine is clamped to [-1,1]; coincident vectors get a null derivative) ---- *)
+  (* ---- unit vector (the cosine is clamped to [-1,1]; coincident and exactly opposite vectors get a null derivative) ---- *)
   Definition clamp1 (c : T) : T := if nltb O one c then one else if nltb O c (nneg O one) then nneg O one else c.
   Definition uv_dist2 (v1 v2 : vec3) : T := let th := nacos O (clamp1 (v3dot v1 v2)) in th * th.
   Definition tiny28 : T := ndiv O one (nmul O (nofZ O 100000000000000) (nofZ O 100000000000000)).
   Definition uv_grad (v1 v2 : vec3) : vec3 :=
     let c := v3dot v1 v2 in
     let s2 := one - c * c in
-    if nltb O zero c && nltb O s2 tiny28 then (zero, zero, zero)
+    if nltb O s2 tiny28 then (zero, zero, zero)
     else v3scale (two * nacos O c * nneg O one / nsqrt O s2) v2.
 
   (* ---- quaternion ---- *)
@@ -353,6 +353,49 @@ Section Value.
   Definition fd_velocity (dt : T) (kind : comp_kind) (xold xnew : cval) : option cval :=
     match comp_lgrad kind xnew xold with
     | Some g => Some (cval_scale ((if nltb O zero dt then one / dt else one) * nhalf O) g)
+    | None => None
+    end.
+  (* run-time modification of the components (modifycvcs): component number j (creation order) gets a new period (None = unchanged;
+     a period makes the component periodic) and a new coefficient; colvar::update_cvc_config re-evaluates the decision on the
+     modified components (after the repair; before it the decision of colvar::init was kept) *)
+  Definition sc_modify (pn : option T) (cn : T) (k : scomp) : scomp :=
+    match pn with
+    | Some P => {| sc_per := true; sc_P := P; sc_wc := sc_wc k; sc_coeff := cn; sc_exp := sc_exp k; sc_rank := sc_rank k |}
+    | None => {| sc_per := sc_per k; sc_P := sc_P k; sc_wc := sc_wc k; sc_coeff := cn; sc_exp := sc_exp k; sc_rank := sc_rank k |}
+    end.
+  Fixpoint sum_modify (j : nat) (pn : option T) (cn : T) (l : list scomp) : list scomp :=
+    match l with
+    | [] => []
+    | k :: r => match j with
+                | 0%nat => sc_modify pn cn k :: r
+                | S j' => k :: sum_modify j' pn cn r
+                end
+    end.
+  Fixpoint sum_history (l : list scomp) (mods : list (nat * option T * T)) : list scomp :=
+    match mods with
+    | [] => l
+    | (j, pn, cn) :: r => sum_history (sum_modify j pn cn l) r
+    end.
+  (* metadynamics: energy and force of ONE hill (colvarbias_meta::calc_hills / calc_hills_force): W exp(-dist2/(2 sigma^2)) with the
+     variable's distance (set to 0 beyond exponent 23), force W * value * 0.5/sigma^2 * dist2_lgrad *)
+  Definition hill_value (sigma : T) (kind : comp_kind) (x c : cval) : option T :=
+    match comp_dist2 kind x c with
+    | Some d => let s := zero + d / (sigma * sigma) in
+                Some (if nltb O (nofZ O 23) s then zero else nexp O (nneg O (nhalf O) * s))
+    | None => None
+    end.
+  Definition hill_energy (W sigma : T) (kind : comp_kind) (x c : cval) : option T :=
+    match hill_value sigma kind x c with Some v => Some (W * v) | None => None end.
+  Definition hill_force (W sigma : T) (kind : comp_kind) (x c : cval) : option cval :=
+    match hill_value sigma kind x c, comp_lgrad kind x c with
+    | Some v, Some g => Some (cval_scale (W * v * (nhalf O / (sigma * sigma))) g)
+    | _, _ => None
+    end.
+  (* OPES: value of one kernel at x on a scalar variable (colvarbias_opes::evaluateKernel, first overload) *)
+  Definition opes_kernel (h sigma cutoff2 vac : T) (kind : comp_kind) (c x : T) : option T :=
+    match comp_dist2 kind (VS c) (VS x) with
+    | Some d => let n2 := zero + d / (sigma * sigma) in
+                Some (if nleb O cutoff2 n2 then zero else h * (nexp O (nneg O (nhalf O) * n2) - vac))
     | None => None
     end.
 End Value.
